@@ -381,6 +381,10 @@ def oracle_compiled(ctx, sf, spec):
     except Exception:  # noqa: BLE001
         ctx.tally("compile-skipped")
         return
+    if not pc.circuit:
+        # an empty program has no representation (to_program documents the ValueError: the number of modes is unknown)
+        ctx.tally("compile-skipped:empty")
+        return
     for ir in ("blackbird", "xir"):
         ctx.oracle_cases += 1
         try:
